@@ -17,6 +17,13 @@ Theorem C07_price_is_df_mean :
        == df * notional * mean (map (fun i => nth j (payoff (path i)) 0) (seq 0 n)).
 Proof. exact price_is_df_mean_full. Qed.
 
+(* Engine.price called repeatedly on ONE engine (other path count, other product): every pricing holds exactly its
+   own p_n paths, each once -- nothing of the previous pricing survives *)
+Theorem C07_repricing_uses_own_paths :
+  forall ps prev, Forall (fun p => length (p_init p) = p_n p) ps ->
+    price_seq prev ps = map (fun p => map (std_row (p_payoff p) (p_path p) (p_df p) (p_notional p)) (seq 0 (p_n p))) ps.
+Proof. exact price_seq_own_paths. Qed.
+
 (* mc_stddev()^2, component j = unbiased sample variance of column j divided by the number of paths n
    (n >= 2; for n = 1 the code returns [0.0]) *)
 Theorem C07_error_per_component :
@@ -59,6 +66,7 @@ Example C07_error_vector_before_repair :
 Proof. exact error_vector_before_repair. Qed.
 
 Print Assumptions C07_price_is_df_mean.
+Print Assumptions C07_repricing_uses_own_paths.
 Print Assumptions C07_error_per_component.
 Print Assumptions C07_cv_mean.
 Print Assumptions C07_cv_variance.
